@@ -14,6 +14,7 @@ import (
 	"github.com/celestiaorg/rsmt2d"
 
 	"github.com/celestiaorg/celestia-node/libs/utils"
+	"github.com/celestiaorg/celestia-node/libs/verifhook"
 	"github.com/celestiaorg/celestia-node/share"
 	"github.com/celestiaorg/celestia-node/share/eds"
 	"github.com/celestiaorg/celestia-node/store/cache"
@@ -147,10 +148,15 @@ func (s *Store) put(
 		utils.CloseAndLog(log, "recent accessor", acc)
 	}
 
+	verifhook.PointKV("store.put.cached", height)
 	tNow := time.Now()
 	lock := s.stripLock.byHashAndHeight(datahash, height)
 	lock.lock()
 	defer lock.unlock()
+	verifhook.PointKV("store.put.locked", height)
+	if err := verifhook.Fault("store.put"); err != nil {
+		return err
+	}
 
 	var exists bool
 	if writeQ4 {
@@ -181,6 +187,7 @@ func (s *Store) createODSQ4File(
 	pathQ4 := s.hashToPath(roots.Hash(), q4FileExt)
 
 	err := file.CreateODSQ4(pathODS, pathQ4, roots, square)
+	verifhook.PointKV("store.put.files-written", height)
 	if err != nil && !errors.Is(err, os.ErrExist) {
 		// ensure we don't have partial writes if any operation fails
 		removeErr := s.removeODSQ4(height, roots.Hash())
@@ -231,6 +238,7 @@ func (s *Store) validateAndRecoverODSQ4(
 	if err != nil {
 		return fmt.Errorf("removing corrupted ODSQ4 file: %w", err)
 	}
+	verifhook.PointKV("store.recover.removed", height)
 	err = file.CreateODSQ4(pathODS, pathQ4, roots, square)
 	if err != nil {
 		return fmt.Errorf("recreating ODSQ4 file: %w", err)
@@ -245,6 +253,7 @@ func (s *Store) createODSFile(
 ) (bool, error) {
 	pathODS := s.hashToPath(roots.Hash(), odsFileExt)
 	err := file.CreateODS(pathODS, roots, square)
+	verifhook.PointKV("store.put.files-written", height)
 	if err != nil && !errors.Is(err, os.ErrExist) {
 		// ensure we don't have partial writes if any operation fails
 		removeErr := s.removeODS(height, roots.Hash())
@@ -296,6 +305,7 @@ func (s *Store) validateAndRecoverODS(
 	if err != nil {
 		return fmt.Errorf("removing corrupted ODS file: %w", err)
 	}
+	verifhook.PointKV("store.recover.removed", height)
 	err = file.CreateODS(pathODS, roots, square)
 	if err != nil {
 		return fmt.Errorf("recreating ODS file: %w", err)
@@ -304,6 +314,8 @@ func (s *Store) validateAndRecoverODS(
 }
 
 func (s *Store) linkHeight(datahash share.DataHash, height uint64) error {
+	verifhook.PointKV("store.link.before", height)
+	defer verifhook.PointKV("store.link.after", height)
 	linktoOds := s.heightToPath(height, odsFileExt)
 	if datahash.IsEmptyEDS() {
 		// empty EDS is always symlinked, because there is limited number of hardlinks
@@ -328,6 +340,7 @@ func (s *Store) populateEmptyFile() error {
 		return fmt.Errorf("cleaning old empty EDS file: %w", err)
 	}
 
+	verifhook.Point("store.empty.removed")
 	err = file.CreateODSQ4(pathOds, pathQ4, share.EmptyEDSRoots(), eds.EmptyAccessor.ExtendedDataSquare)
 	if err != nil {
 		return fmt.Errorf("creating fresh empty EDS file: %w", err)
@@ -486,11 +499,13 @@ func (s *Store) removeODS(height uint64, datahash share.DataHash) error {
 		return fmt.Errorf("removing from cache: %w", err)
 	}
 
+	verifhook.PointKV("store.remove.cache-dropped", height)
 	pathLink := s.heightToPath(height, odsFileExt)
 	if err := remove(pathLink); err != nil {
 		return fmt.Errorf("removing hardlink: %w", err)
 	}
 
+	verifhook.PointKV("store.remove.link-removed", height)
 	// if datahash is empty, we don't need to remove the ODS file, only the hardlink
 	if datahash.IsEmptyEDS() {
 		return nil
@@ -500,6 +515,7 @@ func (s *Store) removeODS(height uint64, datahash share.DataHash) error {
 	if err := remove(pathODS); err != nil {
 		return fmt.Errorf("removing ODS file: %w", err)
 	}
+	verifhook.PointKV("store.remove.ods-removed", height)
 	return nil
 }
 
@@ -529,11 +545,13 @@ func (s *Store) removeQ4(height uint64, datahash share.DataHash) error {
 		return fmt.Errorf("removing from cache: %w", err)
 	}
 
+	verifhook.PointKV("store.removeq4.cache-dropped", height)
 	// remove Q4 file
 	pathQ4File := s.hashToPath(datahash, q4FileExt)
 	if err := remove(pathQ4File); err != nil {
 		return fmt.Errorf("removing Q4 file: %w", err)
 	}
+	verifhook.PointKV("store.removeq4.q4-removed", height)
 	return nil
 }
 
